@@ -8,6 +8,11 @@ and item preparers) and the Lean Impl model `SpecVerif.C03.step` (Drivers/C03.le
 `SpecVerif.C03.wt` evaluated by the driver after every call is compared with an independently
 written reference type checker (plain recursion over `typing.get_origin/get_args`) applied to every
 managed attribute of every live instance.
+
+Round 5: families may be given as class STATEMENTS (`decl` lines; `SpecVerif.C03Boot.bootstrap` mirrors
+`spec_class.bootstrap`: decorator options attrs / attrs_typed / attrs_skip / key / init_overflow_attr, re-annotation and
+re-defaulting in subclasses, plain subclasses); their real classes are built fresh for every case and used in a chosen
+order of first use (`pre`), see the section "round 5" below.
 """
 import collections.abc
 import json
@@ -18,8 +23,9 @@ import sc_values as V
 from sc_values import attr_name, decode, show
 
 PID = "C03"
-LEAN_TARGETS = ["SpecVerif.Props.C03", "SpecVerif.Props.C03Nested", "SpecVerif.Model.C05Proto"]
-AUDIT = [("SpecVerif.Props.C03", "SpecVerif.Props.C03"), ("SpecVerif.Props.C03Nested", "SpecVerif.Props.C03Nested")]
+LEAN_TARGETS = ["SpecVerif.Props.C03", "SpecVerif.Props.C03Nested", "SpecVerif.Props.C03Boot", "SpecVerif.Model.C05Proto"]
+AUDIT = [("SpecVerif.Props.C03", "SpecVerif.Props.C03"), ("SpecVerif.Props.C03Nested", "SpecVerif.Props.C03Nested"),
+         ("SpecVerif.Props.C03Boot", "SpecVerif.Props.C03Boot")]
 DRIVER = "Drivers/C03.lean"
 REQUIRED_THEOREMS = [
     "SpecVerif.Props.C03.wellTyped_step",
@@ -42,6 +48,15 @@ REQUIRED_THEOREMS = [
     "SpecVerif.Props.C03Nested.nested_bad_dict_entry_rejected",
     "SpecVerif.Props.C03Nested.wellTyped_no_bad_position",
     "SpecVerif.Props.C03Nested.reachable_no_bad_position",
+    "SpecVerif.Props.C03Boot.managed_attr_type",
+    "SpecVerif.Props.C03Boot.attrs_nominated_keeps_annotation",
+    "SpecVerif.Props.C03Boot.attrs_typed_decides",
+    "SpecVerif.Props.C03Boot.annotation_decides",
+    "SpecVerif.Props.C03Boot.inherited_attr_type",
+    "SpecVerif.Props.C03Boot.key_attr_type",
+    "SpecVerif.Props.C03Boot.first_use_order_irrelevant",
+    "SpecVerif.Props.C03Boot.first_use_orders_agree",
+    "SpecVerif.Props.C03Boot.constructB_wellTyped",
 ]
 RULE = (
     "case = class family (hand-written families incl. one with list/dict/set attributes carrying item preparers, "
@@ -67,7 +82,20 @@ RULE = (
     "ONE non-conforming leaf among conforming neighbours of the same Python class (first / last / anywhere, on every level; now "
     "and then 7..33 neighbours; now and then the equal float next to an int), conforming values of the same shape through the "
     "same routes before and after. extra(): the same for tuple generics on the real code (not in the model). "
-    "Non-trivial = a call that changed state or raised; distinct = distinct (family, pre-state, call)."
+    "Round 5 -- families given as class STATEMENTS (`decl` lines: the Lean model SpecVerif.C03Boot.bootstrap works out the class "
+    "table itself): hierarchies root / spec subclass / sub-subclass / sibling subclass / plain subclasses / nested class from a "
+    "grammar over every decorator option (attrs=, attrs_typed=, attrs_skip= alone and combined, naming annotated, un-annotated and "
+    "INHERITED attributes, attrs_typed contradicting the annotation, the Any placeholder in attrs_typed; key= managed / annotated "
+    "but not managed / bare / None; init_overflow_attr=), subclasses re-annotating inherited attributes with a NARROWER type (with "
+    "and without a new value, every default kind), re-defaulting, lazy and eager bootstrap.  The real classes are built fresh for "
+    "every case and used in a chosen ORDER OF FIRST USE (`pre`: nothing before / each ancestor / ancestors root-first and "
+    "nearest-first / a descendant / a sibling / the nested class / everything else first; each an ordinary use: construction with "
+    "values for the collection attributes plus element helper calls).  For every class x attribute x route (constructor, with_, "
+    "assignment, update_, transform_, update, transform, element helpers append / insert / replace / update / transform, dict value "
+    "and key): a value that conforms to the OTHER type the attribute has in the family (the parent's, a sibling's, the annotation the "
+    "decorator overrides) but not to this class's must raise and store nothing; attributes typed the same everywhere get any "
+    "non-conforming value through two routes (all routes for a key attribute without helpers). "
+    "Non-trivial = a call that changed state or raised; distinct = distinct (family, pre-state, call[, order of first use])."
 )
 ASSUMPTIONS = [
     "instances handed in as arguments or returned by callbacks were themselves created through the API (are well typed)",
@@ -79,6 +107,10 @@ ASSUMPTIONS = [
     "**kwargs collection (init_overflow_attr): C05/C09 -- families are generated without it",
     "a dependant (`invalidated_by`) whose default passes check_type conforms deeply (EnvOK.depDefaultDeep: the model "
     "resets dependants after check_type alone)",
+    "class statements (C03Boot): `Attr(...)` / `field(...)` values sit on attributes the class manages or inherits; single "
+    "inheritance; no `invalidated_by` / `do_not_copy` / `frozen` in the statements; a subclass re-annotating an inherited attribute "
+    "also manages it (a class whose decorator excludes a name it re-annotates keeps the parent's type for it: not generated); the "
+    "overflow attribute is not annotated differently and receives no keywords; plain subclasses do not re-default the key",
 ]
 EXHAUSTIVE = {"quick": False, "thorough": False}
 
@@ -685,7 +717,7 @@ def gen_elem_op(rng, fam, cid, state_hint=None):
 
 def plain_attrs(fam, cid):
     """attributes whose assignment route has no preparer in the way"""
-    return [ad for ad in V.effective_attrs(fam, cid) if ad.get("prep") is None and ad.get("ip") is None]
+    return [ad for ad in V.effective_attrs(fam, cid) if ad.get("prep") is None and ad.get("ip") is None and not ad.get("ovf")]
 
 
 def gen_bad_op(rng, fam, cid):
@@ -734,7 +766,12 @@ def gen_bad_op(rng, fam, cid):
         rng.shuffle(kw)
         return {"k": "UPD", "fl": fl, "v": "M", "kw": kw, "bad": "toplevel-" + pos}
     if route in ("tra", "TRA") and eff:
-        ad = rng.choice(eff)
+        # (a transform of an attribute that holds nothing starts from `type()`; a validated type refuses to be instantiated
+        # with RuntimeError -- "Observation" in docs/C03.md -- so such attributes need a default to fall back on)
+        cands = [x for x in eff if not (x["ty"][0] == "valid" and x.get("d") is None)]
+        if not cands:
+            return None
+        ad = rng.choice(cands)
         v = bad_for(rng, fam, ad["ty"], scalar_only=True, no_iter=ad["ty"][0] in ("list", "set", "dict"))
         if ad["ty"][0] in ("list", "set", "dict") and rng.random() < 0.6:
             # the transform answers a container of the right class holding ONE wrong item / key / value
@@ -876,7 +913,10 @@ def strings_in(x):
 
 def gen_case(rng, fam0, fname, nops, malformed):
     fam = view(fam0)          # (generation sees the concrete counterparts of the abstract collection generics)
-    cid = rng.choice(C5.top_classes(fam))
+    return gen_case_on(rng, fam0, fam, fname, rng.choice(C5.top_classes(fam)), nops, malformed)
+
+
+def gen_case_on(rng, fam0, fam, fname, cid, nops, malformed):
     eff = V.effective_attrs(fam, cid)
     init = []
     for ad in rng.sample(eff, rng.randint(0, min(4, len(eff)))):
@@ -1033,14 +1073,20 @@ def directed_bad_cases(rng, fam, fname):
     plain subclasses) x every attribute without a preparer x every whole-attribute route: one non-conforming
     value (for collections: a pre-built collection with one wrong element / key / value, or a non-collection)
     """
-    fam0, fam = fam, view(fam)
-    for cid in C5.top_classes(fam):
+    fam0, fam = fam, view(b_flat(fam) if is_boot(fam) else fam)
+    for cid in (boot_receivers(fam0) if is_boot(fam0) else C5.top_classes(fam)):
         ops = []
         base_init = [[a, good_value(rng, fam, C5.attr_desc(fam, cid, a))] for a in bad_default_attrs(fam, cid)]
+        keyattr = V.effective_key(fam, cid) if is_boot(fam0) else None
+        if keyattr is not None and all(x[0] != keyattr for x in base_init) and C5.attr_desc(fam, cid, keyattr).get("d") is None:
+            base_init.append([keyattr, good_value(rng, fam, C5.attr_desc(fam, cid, keyattr))])
+        orders = boot_orders(rng, fam0, cid) if is_boot(fam0) else None
         for ad in plain_attrs(fam, cid):
             ty = ad["ty"]
             ab = is_abstract(ad.get("aty", ty))
             for route in WHOLE_ROUTES:
+                if route in ("tra", "TRA") and ty[0] == "valid" and ad.get("d") is None:
+                    continue    # (nothing held, no default: the transform would start from `type()` -- RuntimeError, see "Observation")
                 if ty[0] in ("list", "set", "dict"):
                     v = rng.choice([bad_collection(rng, fam, ty, rng.choice(["key", "value"]), abstract=ab)] * (3 if ab else 1) + ["i1"])
                     if route in ("tra", "TRA") and v == "i1":
@@ -1055,8 +1101,11 @@ def directed_bad_cases(rng, fam, fname):
                 fl = rng.choice(["-", "i", "a", "ia"])
                 tag = "subclass-" + ("element" if ty[0] in ("list", "set", "dict") else "value")
                 if route == "ctor":
-                    yield {"family": fam0, "fname": fname, "cls": cid, "init": [x for x in base_init if x[0] != a] + [[a, v]],
-                           "ops": [], "init_bad": True, "stream": "directed", "origin": "directed-bad"}
+                    case = {"family": fam0, "fname": fname, "cls": cid, "init": [x for x in base_init if x[0] != a] + [[a, v]],
+                            "ops": [], "init_bad": True, "stream": "directed", "origin": "directed-bad"}
+                    if orders:
+                        case["pre"] = [boot_use(rng, fam, c) for c in rng.choice(orders)]
+                    yield case
                     continue
                 if route in ("with", "upd"):
                     ops.append({"k": route, "fl": fl, "a": a, "v": v, "kw": [], "bad": tag})
@@ -1069,9 +1118,14 @@ def directed_bad_cases(rng, fam, fname):
                 else:
                     ops.append({"k": "TRA", "fl": fl, "f": None, "kt": [[a, "cst " + v]], "bad": tag})
         rng.shuffle(ops)
-        for i in range(0, len(ops), 12):
-            yield {"family": fam0, "fname": fname, "cls": cid, "init": base_init, "ops": ops[i:i + 12], "stream": "directed",
-                   "origin": "directed-bad"}
+        if is_boot(fam0):
+            ops = boot_filter_ops(fam, cid, ops)
+        for n, i in enumerate(range(0, len(ops), 12)):
+            case = {"family": fam0, "fname": fname, "cls": cid, "init": base_init, "ops": ops[i:i + 12], "stream": "directed",
+                    "origin": "directed-bad"}
+            if orders:
+                case["pre"] = [boot_use(rng, fam, c) for c in orders[n % len(orders)]]
+            yield case
 
 
 def directed_baddef_cases(rng, fam0, fname):
@@ -1249,12 +1303,896 @@ def directed_nested_cases(rng, fam0, fname, reps=1):
                    "origin": "directed-nested"}
 
 
+# ---------------------------------------------------------------------------
+# round 5: class STATEMENTS -- where the managed type of an attribute comes from.  Families of this section are
+# described by what the user writes (class bodies, `@spec_class(...)` options, who derives from whom, lazy / eager
+# bootstrap); the Lean model (`SpecVerif.C03Boot.bootstrap`, driven by `decl` lines) and the harness' own reference
+# (`b_resolved`) each work out the class table, the real classes are built fresh for every case and used in the
+# order the case says (`pre`: classes used before the class under test is first used).
+# ---------------------------------------------------------------------------
+#   bfam = {"boot": 1, "classes": [cd, ...]} in definition order, cd =
+#     {"id", "kind": "spec", "base", "eager": bool, "entries": [Ent(...)], "attrs": [names], "typed": [[name, ty]],
+#      "skip": None | [names], "key": "_" (not given) | "-" (key=None) | name, "ovf": None | name}
+#     {"id", "kind": "plain", "base", "over": {"<name>": value tokens}}
+
+FLOAT = ["float"]
+ANY = ["any"]
+FACTORY_KINDS = ("factory", "attrfactory", "fieldfactory")
+VALUE_KINDS = ("value", "attr", "field")
+
+
+def Ent(name, ann=None, dk="none", d=None, prep=None, ip=None):
+    """one name of a class body: annotation (None: not annotated), class-level value, preparers defined next to it"""
+    return {"name": name, "ann": ann, "dk": dk, "d": d, "prep": prep, "ip": ip}
+
+
+def is_boot(fam):
+    return bool(fam.get("boot"))
+
+
+_BRES = {}
+
+
+def b_resolved(bfam):
+    """
+    the harness' own reading of the class statements: for every class the managed attributes (metadata order) with
+    the type each of them is DECLARED to have -- the type given through `attrs_typed`, else the annotation visible on
+    the class (its own, else the nearest ancestor's; an ancestor that declared the type through its decorator counts),
+    else Any; the overflow attribute is a Dict[str, Any]; an attribute this class does not declare keeps what it had
+    in the parent class.  {cid: {"attrs": [...], "key", "ovf", "anns", "cvals", "preps", "ips", "chain"}}
+    """
+    hit = _BRES.get(id(bfam))
+    if hit is not None and hit[0] is bfam:
+        return hit[1]
+    res = {}
+    for cd in bfam["classes"]:
+        res[cd["id"]] = _b_class(cd, res)
+    if len(_BRES) > 200:
+        _BRES.clear()
+    _BRES[id(bfam)] = (bfam, res)
+    return res
+
+
+def _b_class(cd, res):
+    cid, base = cd["id"], cd.get("base")
+    chain = [] if base is None else [base] + res[base]["chain"]
+    parent = res[base] if base is not None else None
+    inherited = [dict(a) for a in parent["attrs"]] if parent else []
+    if cd["kind"] == "plain":
+        over = {int(a): d for a, d in (cd.get("over") or {}).items()}
+        for a in inherited:
+            if a["name"] in over:
+                a["dk"], a["d"] = "value", over[a["name"]]
+        return {"attrs": inherited, "key": parent["key"], "ovf": parent["ovf"], "anns": {}, "chain": chain,
+                "cvals": {a: ("value", d) for a, d in over.items()}, "preps": {}, "ips": {}}
+    entries = {e["name"]: e for e in cd["entries"]}
+    own_ann = {e["name"]: e["ann"] for e in cd["entries"] if e.get("ann") is not None}
+    nominated, typed, skip = list(cd.get("attrs") or []), list(cd.get("typed") or []), cd.get("skip")
+    declared = {}                                   # the decorator's word on types
+    for a in nominated:
+        declared.setdefault(a, ANY)
+    for a, t in typed:
+        declared[a] = t
+    if cd.get("ovf") is not None:
+        declared[cd["ovf"]] = V.OVF_TY
+    mine = []
+    if not (nominated or typed) or skip is not None:
+        mine += [a for a in own_ann if a not in (skip or [])]
+    mine += list(declared)
+    key = cd.get("key", "_")
+
+    def visible_annotation(a):
+        if a in own_ann:
+            return own_ann[a]
+        for c in chain:
+            if a in res[c]["anns"]:
+                return res[c]["anns"][a]
+        return None
+
+    def type_of(a):
+        t = declared.get(a)
+        return t if t is not None and t != ANY else (visible_annotation(a) or ANY)
+
+    def class_value(a):
+        e = entries.get(a)
+        if e is not None and e["dk"] != "none":
+            return ("none", None) if e["dk"] == "bare" else (e["dk"], e["d"])
+        for c in chain:
+            if a in res[c]["cvals"]:
+                dk, d = res[c]["cvals"][a]
+                # (a default factory / a declaration without default leaves the MISSING sentinel on the ancestor)
+                return ("value", d) if dk in VALUE_KINDS else ("prop", d) if dk == "prop" else ("none", None)
+        return ("none", None)
+
+    def nearest(a, which):
+        e = entries.get(a)
+        if e is not None and e.get(which) is not None:
+            return e[which]
+        for c in chain:
+            if a in res[c][which + "s"]:
+                return res[c][which + "s"][a]
+        return None
+
+    def build(a, t, owner, helpers=True):
+        dk, d = class_value(a)
+        return {"name": a, "ty": t, "dk": dk, "d": d, "prep": nearest(a, "prep"),
+                "ip": nearest(a, "ip") if cty(t)[0] in ("list", "set", "dict") else None, "owner": owner, "helpers": helpers}
+
+    typed_here = set(mine) | ({key} if isinstance(key, int) else set())
+    attrs = []
+    for a in inherited:
+        e = entries.get(a["name"])
+        if a["name"] in typed_here or e is None or e["dk"] == "none":
+            attrs.append(a)
+        else:               # only a new class-level value: the inherited type stays
+            attrs.append(build(a["name"], a["ty"], a["owner"] if e["dk"] in ("value", "prop") else cid))
+    for a in mine:
+        nb = build(a, type_of(a), cid)
+        at = [i for i, x in enumerate(attrs) if x["name"] == a]
+        if at:
+            attrs[at[0]] = nb
+        else:
+            attrs.append(nb)
+    if isinstance(key, int) and all(x["name"] != key for x in attrs):
+        attrs.append(build(key, type_of(key), cid, helpers=False))
+    anns = dict(own_ann)
+    for x in attrs:
+        if x["owner"] == cid:
+            anns.setdefault(x["name"], x["ty"])
+    return {"attrs": attrs, "chain": chain, "anns": anns,
+            "key": parent["key"] if key == "_" and parent else None if key in ("_", "-") else key,
+            "ovf": cd["ovf"] if cd.get("ovf") is not None else (parent["ovf"] if parent else None),
+            "cvals": {e["name"]: (e["dk"], e["d"]) for e in cd["entries"] if e["dk"] != "none"},
+            "preps": {e["name"]: e["prep"] for e in cd["entries"] if e.get("prep") is not None},
+            "ips": {e["name"]: e["ip"] for e in cd["entries"] if e.get("ip") is not None}}
+
+
+def b_other_types(bfam):
+    """{class: {attribute name: every type the name is given anywhere in the hierarchy of the class}} (annotations,
+    `attrs_typed`, resolved types; classes of another hierarchy -- the nested class -- do not count)"""
+    out = {}
+    res = b_resolved(bfam)
+    root = lambda c: (res[c]["chain"] or [c])[-1]  # noqa: E731
+
+    def add(c, a, t):
+        if t is not None and t not in out.setdefault((root(c), a), []):
+            out[(root(c), a)].append(t)
+
+    for cd in bfam["classes"]:
+        for e in cd.get("entries") or []:
+            add(cd["id"], e["name"], e.get("ann"))
+        for a, t in cd.get("typed") or []:
+            add(cd["id"], a, t)
+    for c, r in res.items():
+        for x in r["attrs"]:
+            add(c, x["name"], x["ty"])
+    return {c: {a: ts for (rt, a), ts in out.items() if rt == root(c)} for c in res}
+
+
+_BFLAT = {}
+
+
+def b_flat(bfam):
+    """
+    the family as the generators, the reference checker and the call helpers read it: one base-less class per class
+    with its resolved attributes.  Per attribute: "was" = the OTHER types the name has somewhere in the family (in an
+    ancestor, in a sibling, as an annotation the decorator overrides), "nohelp" = no helper methods (a key attribute
+    the class does not otherwise manage), "ovf" = the overflow attribute.
+    """
+    hit = _BFLAT.get(id(bfam))
+    if hit is not None and hit[0] is bfam:
+        return hit[1]
+    res = b_resolved(bfam)
+    others = b_other_types(bfam)
+    classes = []
+    for cd in bfam["classes"]:
+        r = res[cd["id"]]
+        attrs = []
+        for x in r["attrs"]:
+            ad = A(x["name"], x["ty"], "none" if x["dk"] == "bare" else x["dk"], x["d"], x["prep"], x["ip"])
+            ad["was"] = [t for t in others[cd["id"]].get(x["name"], []) if t != x["ty"]]
+            if not x["helpers"]:
+                ad["nohelp"] = True
+            if r["ovf"] == x["name"]:
+                ad["ovf"] = True
+            attrs.append(ad)
+        classes.append({"id": cd["id"], "kind": "spec", "base": None, "key": r["key"], "attrs": attrs})
+    out = {"classes": classes, "flat": 1}
+    if len(_BFLAT) > 200:
+        _BFLAT.clear()
+    _BFLAT[id(bfam)] = (bfam, out)
+    return out
+
+
+def b_build(bfam):
+    """the REAL classes, fresh (nothing bootstrapped yet unless `eager`), exactly as the statements say"""
+    import dataclasses
+
+    Attr, spec_class, spec_property = V._sc["Attr"], V._sc["spec_class"], V._sc["mod"].spec_property
+    res = b_resolved(bfam)
+    classes = {}
+    for cd in bfam["classes"]:
+        cid = cd["id"]
+        bases = (classes[cd["base"]],) if cd.get("base") is not None else ()
+        ns = {"__module__": "verif_family", "__qualname__": f"C{cid}"}
+        if cd["kind"] == "plain":
+            for a, d in (cd.get("over") or {}).items():
+                ns[attr_name(int(a))] = decode(d, classes)
+            cls = type(f"C{cid}", bases, ns)
+        else:
+            ann = {}
+            for e in cd["entries"]:
+                name = attr_name(e["name"])
+                if e.get("ann") is not None:
+                    ann[name] = V.ty_real(e["ann"], classes)
+                dk, d = e["dk"], e["d"]
+                if dk == "value":
+                    ns[name] = decode(d, classes)
+                elif dk == "attr":
+                    ns[name] = Attr(default=decode(d, classes))
+                elif dk == "field":
+                    ns[name] = dataclasses.field(default=decode(d, classes))
+                elif dk in ("factory", "attrfactory"):
+                    ns[name] = Attr(default_factory=(lambda d=d: decode(d, classes)))
+                elif dk == "fieldfactory":
+                    ns[name] = dataclasses.field(default_factory=(lambda d=d: decode(d, classes)))
+                elif dk == "bare":
+                    ns[name] = Attr()
+                elif dk == "prop":
+                    ns[name] = spec_property((lambda d: (lambda self: decode(d, classes)))(d))
+                if e.get("prep") is not None:
+                    ns[f"_prepare_{name}"] = (lambda f: (lambda self, v: f(self, v)))(V.PREPARERS[e["prep"]])
+                if e.get("ip") is not None:
+                    ns[f"_prepare_{name}_item"] = (lambda f: (lambda self, v: f(self, v)))(V.PREPARERS[e["ip"]])
+            ns["__annotations__"] = ann
+            cls = type(f"C{cid}", bases, ns)
+            kw = {"bootstrap": bool(cd.get("eager", False))}
+            if cd.get("key", "_") != "_":
+                kw["key"] = None if cd["key"] == "-" else attr_name(cd["key"])
+            if cd.get("attrs"):
+                kw["attrs"] = [attr_name(a) for a in cd["attrs"]]
+            if cd.get("typed"):
+                kw["attrs_typed"] = {attr_name(a): V.ty_real(t, classes) for a, t in cd["typed"]}
+            if cd.get("skip") is not None:
+                kw["attrs_skip"] = [attr_name(a) for a in cd["skip"]]
+            if cd.get("ovf") is not None:
+                kw["init_overflow_attr"] = attr_name(cd["ovf"])
+            cls = spec_class(**kw)(cls)
+        cls.__verif_id__ = cid
+        cls.__verif_attrs__ = [x["name"] for x in res[cid]["attrs"]]
+        classes[cid] = cls
+    return classes
+
+
+def b_decl_lines(bfam):
+    """`decl …` protocol lines (Drivers/C03.lean): the class statements themselves, not a ready-made class table"""
+    lines = []
+    opt = lambda x: "_" if x is None else str(x)  # noqa: E731
+    for cd in bfam["classes"]:
+        if cd["kind"] == "plain":
+            ents = [Ent(int(a), None, "value", d) for a, d in (cd.get("over") or {}).items()]
+            parts = ["decl", str(cd["id"]), "p", opt(cd.get("base")), "_", "_", "_", "0", "0"]
+        else:
+            ents = cd["entries"]
+            skip = cd.get("skip")
+            parts = ["decl", str(cd["id"]), "s", opt(cd.get("base")), str(cd.get("key", "_")), opt(cd.get("ovf")),
+                     "_" if skip is None else " ".join([str(len(skip))] + [str(a) for a in skip])]
+            parts += [str(len(cd.get("attrs") or []))] + [str(a) for a in cd.get("attrs") or []]
+            parts += [str(len(cd.get("typed") or []))] + [f"{a} {V.ty_tokens(t)}" for a, t in cd.get("typed") or []]
+        parts.append(str(len(ents)))
+        for e in ents:
+            dk, d = e["dk"], e["d"]
+            body = ("_" if dk == "none" else "b" if dk == "bare" else f"v {d}" if dk == "value" else f"d {d}" if dk in ("attr", "field")
+                    else f"f {d}" if dk in FACTORY_KINDS else f"p {d}")
+            parts += [str(e["name"]), "_" if e.get("ann") is None else V.ty_tokens(e["ann"]), body, opt(e.get("prep")), opt(e.get("ip"))]
+        lines.append(" ".join(parts))
+    return lines
+
+
+def boot_option_tags(bfam, cid):
+    """which decorator options / class-statement features the class `cid` and its ancestors use (evidence histogram)"""
+    res = b_resolved(bfam)
+    out = set()
+    for c in [cid] + res[cid]["chain"]:
+        cd = [x for x in bfam["classes"] if x["id"] == c][0]
+        if cd["kind"] == "plain":
+            out.add("plain-subclass")
+            continue
+        out.add("lazy" if not cd.get("eager") else "eager")
+        for k, name in (("attrs", "attrs"), ("typed", "attrs_typed"), ("ovf", "init_overflow_attr")):
+            if cd.get(k):
+                out.add(name)
+        if cd.get("skip") is not None:
+            out.add("attrs_skip")
+        if cd.get("key", "_") != "_":
+            out.add("key" if cd["key"] != "-" else "key=None")
+        inh = {x["name"] for x in res[cd["base"]]["attrs"]} if cd.get("base") is not None else set()
+        for e in cd["entries"]:
+            if e["name"] in inh and e.get("ann") is not None:
+                out.add("re-annotated" + ("" if e["dk"] == "none" else "+value"))
+            elif e["name"] in inh and e["dk"] != "none":
+                out.add("re-defaulted")
+        if any(a in inh for a in cd.get("attrs") or []):
+            out.add("attrs-names-inherited")
+        if any(a in inh for a, _ in cd.get("typed") or []):
+            out.add("attrs_typed-names-inherited")
+    return sorted(out)
+
+
+# -- the grammar of class statements ------------------------------------------------------------------------------
+
+UIS = ["union", INT, STR]
+# (what the parent says, what a subclass may narrow it to)
+NARROWINGS = [
+    (FLOAT, [INT]),
+    (UIS, [INT, STR]),
+    (V.opt(INT), [INT]),
+    (V.opt(STR), [STR]),
+    (ANY, [INT, STR, ["list", INT]]),
+    (["lit", ["s100", "s101"]], [["lit", ["s100"]]]),
+    (INT, [["valid", 0, INT], ["valid", 3, INT]]),
+    (["list", FLOAT], [["list", INT]]),
+    (["list", UIS], [["list", INT], ["list", STR]]),
+    (["list", V.opt(INT)], [["list", INT]]),
+    (["list", INT], [["list", ["valid", 0, INT]], ["mseq", INT]]),
+    (["dict", STR, FLOAT], [["dict", STR, INT]]),
+    (["dict", STR, UIS], [["dict", STR, INT], ["dict", STR, STR]]),
+    (["dict", UIS, INT], [["dict", STR, INT], ["dict", INT, INT]]),
+    (["set", UIS], [["set", INT], ["set", STR]]),
+    (["mseq", FLOAT], [["mseq", INT], ["list", INT]]),
+    (V.opt(["list", FLOAT]), [V.opt(["list", INT]), ["list", INT]]),
+]
+BOOT_SCALARS = [INT, STR, FLOAT, ["bool"], V.opt(INT), UIS, ["lit", ["s100", "s101"]]]
+BOOT_COLLS = [["list", INT], ["list", STR], ["dict", STR, INT], ["set", INT], ["set", STR], ["dict", INT, STR]]
+
+
+def boot_default(rng, ty, p=0.7, plain_only=False):
+    """(dk, d): a class-level value conforming to `ty`, or none"""
+    if rng.random() > p:
+        return "none", None
+    t = cty(ty)
+    mutable = t[0] in ("list", "set", "dict")
+    if is_abstract(ty):
+        return rng.choice(["factory", "attrfactory"]), C5.gen_value(rng, {"classes": []}, t, 0)
+    d = C5.nobool(C5.gen_value(rng, {"classes": []}, t, 0)) if not mutable else C5.gen_value(rng, {"classes": []}, t, 0)
+    if plain_only:
+        return "value", d
+    return rng.choice(["value", "value", "attr", "field", "factory"] if not mutable
+                      else ["value", "value", "factory", "attrfactory", "fieldfactory"]), d
+
+
+def boot_options(rng, cd, inherited, mode):
+    """decorate the class statement `cd` (entries are in place) with the options of `mode`"""
+    annotated = [e["name"] for e in cd["entries"] if e.get("ann") is not None]
+    unannotated = [e["name"] for e in cd["entries"] if e.get("ann") is None and e["dk"] not in ("none",)
+                   and e["name"] not in inherited]
+    reann = [a for a in annotated if a in inherited]
+    fresh = [a for a in annotated if a not in inherited]
+    ann_of = {e["name"]: e["ann"] for e in cd["entries"]}
+    pick = lambda xs, lo=1: rng.sample(xs, rng.randint(min(lo, len(xs)), len(xs))) if xs else []  # noqa: E731
+    if "attrs" in mode:
+        # annotated attributes nominated by name (their annotation is their type), un-annotated ones (Any), inherited ones
+        cd["attrs"] = pick(fresh) + [a for a in unannotated if rng.random() < 0.7] + \
+            [a for a in inherited if a not in annotated and rng.random() < 0.25]
+        if "skip" not in mode:
+            # TODO(observation C03-excluded-reannotation, reported to the orchestrator, not registered): a class whose decorator
+            # EXCLUDES a name it re-annotates -- `@spec_class(attrs=["values"]) class C3(S): u: int = 5; values: List[int]` with
+            # `S.u: Union[int, str]` -- keeps managing `u` under the parent's type (`C3().u = "s"` is accepted although C3
+            # annotates `u: int`); which annotation counts is ambiguous in the property text, the shape is not generated:
+            # every re-annotated name is also nominated.
+            cd["attrs"] += [a for a in reann if a not in cd["attrs"]]    # (a re-annotation the class would otherwise not manage)
+        rng.shuffle(cd["attrs"])
+    if "typed" in mode:
+        typed = []
+        for a in unannotated:
+            if a not in cd.get("attrs", []) or rng.random() < 0.3:
+                typed.append([a, cty_guess(rng, cd, a)])
+        for a in rng.sample(fresh, min(len(fresh), rng.randint(1, 2))):
+            # the decorator's type wins over the annotation: declare something else than the annotation says
+            alts = [t for w, ns in NARROWINGS for t in ns if w == ann_of[a]] + [w for w, ns in NARROWINGS if ann_of[a] in ns]
+            if alts:
+                t = rng.choice(alts)
+                e = [x for x in cd["entries"] if x["name"] == a][0]
+                if e["dk"] == "none" or C5.p_conforms({"classes": []}, cty(t), plain(e["d"], {"classes": []})):
+                    typed.append([a, t])
+        for a in inherited:
+            if a not in annotated and rng.random() < 0.3:
+                ns = [t for w, ns_ in NARROWINGS for t in ns_ if w == inherited[a]]
+                if ns:
+                    typed.append([a, rng.choice(ns)])
+        if rng.random() < 0.3 and fresh:
+            typed.append([rng.choice(fresh), ANY])      # the placeholder: the annotation stays in charge
+        cd["typed"] = typed
+        if "skip" not in mode and "attrs" not in mode:
+            cd["attrs"] = [a for a in reann if all(a != x for x, _ in typed)]
+            if not cd["typed"] and not cd["attrs"]:
+                cd["typed"] = []
+    if "skip" in mode:
+        cand = [a for a in fresh if all(a != x for x, _ in cd.get("typed") or [])]
+        cd["skip"] = rng.sample(cand, min(len(cand), rng.randint(0, 2)))
+    return cd
+
+
+def cty_guess(rng, cd, a):
+    """a type for an un-annotated class-level value (declared through `attrs_typed`): one its value conforms to"""
+    e = [x for x in cd["entries"] if x["name"] == a][0]
+    v = plain(e["d"], {"classes": []})
+    cands = [t for t in BOOT_SCALARS + BOOT_COLLS + [ANY] if C5.p_conforms({"classes": []}, t, v)]
+    return rng.choice(cands)
+
+
+BOOT_MODES = ["-", "attrs", "typed", "skip", "attrs+skip", "typed+skip", "attrs+typed", "attrs+typed+skip"]
+
+
+def boot_family(rng, root_mode=None, sub_mode=None, lazy_p=0.8):
+    """
+    a hierarchy from the grammar of class statements:
+      C1 nested class (stand-alone) - C0 root - C2 spec subclass of C0 - C3 spec subclass of C2 - C5 spec subclass of C0
+      (a sibling of C2 narrowing differently) - C4 plain subclass of C3 - C6 plain subclass of C0 (some are left out).
+    Root: 5..8 attributes (scalars, collections, wide types that can be narrowed), defaults of every kind; decorator
+    options per class from BOOT_MODES, a key (managed / not managed, annotated / not), an overflow attribute.
+    Subclasses: re-annotate inherited attributes with a NARROWER type (with / without a new value), re-default others,
+    name inherited attributes in `attrs=` / `attrs_typed=`, add attributes of their own.
+    """
+    root_mode = root_mode or rng.choice(BOOT_MODES)
+    sub_mode = sub_mode or rng.choice(BOOT_MODES)
+    lazy = lambda: rng.random() >= lazy_p  # noqa: E731   (-> "eager")
+    classes = [{"id": 1, "kind": "spec", "base": None, "eager": lazy(), "key": "_", "entries": [
+        Ent(0, INT, "value", "i1"), Ent(1, rng.choice([STR, V.opt(STR)]), "value", "s100"), Ent(2, ["list", INT])]}]
+    # -- the root
+    ents = []
+    wide = rng.sample(NARROWINGS, rng.randint(3, 5))
+    a = 0
+    for w, _ in wide:
+        dk, d = boot_default(rng, w, 0.75)
+        ents.append(Ent(a, w, dk, d))
+        a += 1
+    for t in rng.sample(BOOT_SCALARS, 2) + rng.sample(BOOT_COLLS, 1):
+        dk, d = boot_default(rng, t, 0.7)
+        ents.append(Ent(a, t, dk, d, prep=(1 if t == INT and rng.random() < 0.3 else None),
+                        ip=(rng.choice([0, 1]) if t == ["list", INT] and rng.random() < 0.3 else None)))
+        a += 1
+    if rng.random() < 0.5:
+        ents.append(Ent(a, ["spec", 1], "none", None))
+        a += 1
+    if rng.random() < 0.6:                  # a class-level value without annotation (managed only if the decorator names it)
+        ents.append(Ent(a, None, "value", rng.choice(["i3", "s101", "L 1 i1"])))
+        a += 1
+    rng.shuffle(ents)
+    root = {"id": 0, "kind": "spec", "base": None, "eager": lazy(), "key": "_", "entries": ents}
+    boot_options(rng, root, {}, root_mode)
+    r = rng.random()
+    if r < 0.35:
+        # a key: an annotated attribute the class manages / an annotated one it does not manage / a bare name
+        strs = [e["name"] for e in ents if e.get("ann") in (STR, INT) and e["dk"] == "none"]
+        if strs and rng.random() < 0.6:
+            root["key"] = rng.choice(strs)
+        else:
+            root["entries"].append(Ent(20, rng.choice([STR, INT, None])))
+            root["key"] = 20
+            if root.get("attrs") or root.get("typed"):
+                pass                        # (annotations are not picked up: the key stays un-managed)
+            elif root["entries"][-1]["ann"] is not None and rng.random() < 0.5:
+                root["skip"] = (root.get("skip") or []) + [20]
+    if rng.random() < 0.2:
+        root["ovf"] = 30
+    classes.append(root)
+    fam = {"boot": 1, "classes": classes}
+
+    def subclass(cid, base, mode, narrow_p):
+        res = b_resolved({"boot": 1, "classes": classes})
+        inh = {x["name"]: x["ty"] for x in res[base]["attrs"]}
+        pinfo = {x["name"]: x for x in res[base]["attrs"]}
+        ents = []
+        for n, t in inh.items():
+            if pinfo[n].get("helpers") is False or n == res[base]["ovf"] or pinfo[n]["dk"] == "prop":
+                continue
+            ns = [x for w, ns_ in NARROWINGS for x in ns_ if w == t]
+            r = rng.random()
+            if ns and r < narrow_p:
+                nt = rng.choice(ns)
+                # re-annotated: mostly without a value (the inherited class-level value stays), sometimes with a new one
+                if rng.random() < 0.65:
+                    ents.append(Ent(n, nt))
+                else:
+                    dk, d = boot_default(rng, nt, 1.0)
+                    ents.append(Ent(n, nt, dk, d))
+            elif r < narrow_p + 0.12 and t[0] != "spec" and n != res[base]["key"]:
+                dk, d = boot_default(rng, t, 1.0, plain_only=rng.random() < 0.7)
+                ents.append(Ent(n, None, dk, d))                     # re-defaulted only
+            elif r < narrow_p + 0.2 and t[0] != "spec":
+                ents.append(Ent(n, t))                               # re-annotated with the same type
+        nxt = 40 + 10 * cid
+        for t in rng.sample(BOOT_SCALARS + BOOT_COLLS, rng.randint(1, 2)):
+            dk, d = boot_default(rng, t, 0.8)
+            ents.append(Ent(nxt, t, dk, d))
+            nxt += 1
+        if rng.random() < 0.4:
+            ents.append(Ent(nxt, None, "value", rng.choice(["i3", "s101"])))
+        rng.shuffle(ents)
+        cd = {"id": cid, "kind": "spec", "base": base, "eager": lazy(), "key": "_", "entries": ents}
+        boot_options(rng, cd, inh, mode)
+        if rng.random() < 0.1:
+            cd["key"] = "-"
+        classes.append(cd)
+
+    def plain_sub(cid, base):
+        res = b_resolved({"boot": 1, "classes": classes})
+        over = {}
+        for x in rng.sample(res[base]["attrs"], min(len(res[base]["attrs"]), rng.randint(0, 2))):
+            # (not the key: the generated signature -- fixed when the spec class is bootstrapped -- keeps demanding it)
+            if x["ty"][0] != "spec" and x["dk"] != "prop" and x.get("helpers") is not False and x["name"] not in (res[base]["ovf"], res[base]["key"]):
+                over[str(x["name"])] = boot_default(rng, x["ty"], 1.0, plain_only=True)[1]
+        classes.append({"id": cid, "kind": "plain", "base": base, "over": over})
+
+    subclass(2, 0, sub_mode, 0.6)
+    shape = rng.random()
+    if shape < 0.75:
+        subclass(3, 2, rng.choice(BOOT_MODES), 0.45)
+    if shape > 0.3:
+        subclass(5, 0, rng.choice(BOOT_MODES), 0.7)
+    if rng.random() < 0.5:
+        plain_sub(4, classes[-1]["id"] if classes[-1]["kind"] == "spec" else 2)
+    if rng.random() < 0.3:
+        plain_sub(6, 0)
+    return fam
+
+
+# hand-written: the shapes of the two seeded changes of round 5 and their neighbours, every option at least once
+FAMILY_BOOT = {"boot": 1, "classes": [
+    {"id": 1, "kind": "spec", "base": None, "eager": False, "key": "_", "entries": [
+        Ent(0, INT, "value", "i1"), Ent(1, STR, "value", "s100"), Ent(2, ["list", INT])]},
+    {"id": 0, "kind": "spec", "base": None, "eager": False, "key": "_", "entries": [
+        Ent(0, STR, "value", "s100"),
+        Ent(1, ["list", FLOAT], "value", "L 0"),
+        Ent(2, ["dict", STR, FLOAT], "value", "D 0"),
+        Ent(3, UIS, "value", "i0"),
+        Ent(4, V.opt(INT), "value", "i2"),
+        Ent(5, ["set", UIS]),
+        Ent(6, ["list", UIS], "factory", "L 1 i1"),
+        Ent(7, FLOAT, "attr", "i3"),
+        Ent(8, ["spec", 1]),
+        Ent(9, ["list", INT], "value", "L 0"),
+        Ent(10, INT, "value", "i5"),
+    ]},
+    {"id": 2, "kind": "spec", "base": 0, "eager": False, "key": "_", "entries": [     # narrows by re-annotation only
+        Ent(1, ["list", INT]), Ent(2, ["dict", STR, INT]), Ent(3, INT), Ent(4, INT), Ent(5, ["set", INT]),
+        Ent(6, ["list", INT], "factory", "L 1 i2"), Ent(7, INT), Ent(9, ["list", ["valid", 0, INT]]), Ent(40, STR, "value", "s101")]},
+    {"id": 3, "kind": "spec", "base": 2, "eager": False, "key": "_", "entries": [     # a third level, narrowing once more
+        Ent(3, ["valid", 3, INT], "value", "i2"), Ent(10, ["valid", 0, INT]), Ent(50, INT, "value", "i0")]},
+    {"id": 5, "kind": "spec", "base": 0, "eager": False, "key": "_", "entries": [     # the sibling narrows the other way
+        Ent(1, ["list", INT]), Ent(3, STR, "value", "s101"), Ent(5, ["set", STR]), Ent(6, ["list", STR], "factory", "L 0"),
+        Ent(2, ["dict", STR, INT], "value", "D 1 s100 i1")]},
+    {"id": 4, "kind": "plain", "base": 3, "over": {"10": "i7"}},
+    {"id": 6, "kind": "plain", "base": 0, "over": {"3": "s102"}},
+]}
+
+FAMILY_BOOTOPT = {"boot": 1, "classes": [
+    {"id": 1, "kind": "spec", "base": None, "eager": False, "key": 0, "attrs": [1, 2], "entries": [
+        Ent(0, STR), Ent(1, INT, "value", "i1"), Ent(2, ["list", INT], "value", "L 0")]},
+    {"id": 0, "kind": "spec", "base": None, "eager": False, "key": 9,          # (the key: annotated, not nominated)
+     "attrs": [0, 1, 2, 3, 4, 12], "typed": [[5, ["dict", STR, INT]], [6, STR], [7, ANY]], "ovf": 30, "entries": [
+        Ent(0, INT, "value", "i0"), Ent(1, ["list", STR], "value", "L 0"), Ent(2, ["dict", STR, INT], "value", "D 0"),
+        Ent(3, V.opt(STR), "value", "N"), Ent(4, ["set", INT]), Ent(5, None, "value", "D 0"),
+        Ent(6, INT, "value", "s100"),              # annotated int, declared str by the decorator
+        Ent(7, ["list", INT], "factory", "L 1 i1"),  # the Any placeholder in attrs_typed: the annotation decides
+        Ent(8, INT, "value", "i4"),                # annotated, but not nominated: not managed
+        Ent(12, None, "value", "i3"),              # nominated without annotation: Any
+        Ent(9, STR),
+    ]},
+    {"id": 2, "kind": "spec", "base": 0, "eager": False, "key": "_", "skip": [41], "attrs": [0], "typed": [[1, ["list", ["lit", ["s100", "s101"]]]]],
+     "entries": [Ent(40, UIS, "value", "i1"), Ent(41, INT, "value", "i2"), Ent(4, ["set", ["valid", 0, INT]]),
+                 Ent(6, None, "value", "s101"),     # re-defaulted only: stays `str` (the parent's decorator said so), not the annotation
+                 Ent(5, None, "factory", "D 1 s100 i1")]},
+    {"id": 3, "kind": "spec", "base": 2, "eager": False, "key": 42, "entries": [Ent(40, INT), Ent(42, STR), Ent(50, FLOAT, "value", "f3")]},
+    {"id": 5, "kind": "spec", "base": 0, "eager": True, "key": "_", "typed": [[2, ["dict", STR, ["valid", 3, INT]]], [60, ["list", FLOAT]]],
+     "entries": [Ent(60, None, "value", "L 0"), Ent(3, STR, "value", "s101")]},
+    {"id": 4, "kind": "plain", "base": 3, "over": {"0": "i9"}},
+]}
+
+
+def boot_receivers(bfam):
+    return [cd["id"] for cd in bfam["classes"] if cd["id"] != 1]
+
+
+def was_ok_bad(rng, vfam, ad, item=False):
+    """tokens of a value that conforms to one of the OTHER types the attribute has in the family (in an ancestor, in a
+    sibling, under the annotation the decorator overrides) but not to the type it has in THIS class; None: no such value.
+    `item`: for a collection attribute, such an element (value) rather than a whole collection."""
+    ty = ad["ty"]
+    for _ in range(12):
+        if not ad.get("was"):
+            return None
+        w = cty(rng.choice(ad["was"]))
+        if item:
+            if not (is_container(w) and is_container(ty) and w[0] == ty[0]):
+                continue
+            v = C5.nobool(C5.gen_value(rng, vfam, w[-1], 0))
+            if not C5.p_conforms(vfam, ty[-1], plain(v, vfam)):
+                return v
+            continue
+        if w == ANY:
+            v = bad_for(rng, vfam, ty, scalar_only=not is_container(ty))
+        elif is_container(w):
+            v = good_nest(rng, vfam, w)
+        else:
+            v = C5.gen_value(rng, vfam, w, 0)
+        if v is None or "I" in V.toks(v):
+            continue
+        if is_container(ty) and v == "N" and not is_abstract(ad.get("aty", ty)):
+            continue                      # None is normalised into the empty collection
+        if v[0] == "D" and "valid" in json.dumps(ty):
+            continue
+        if not is_container(ty) and v[0] in "LSD" and ty[0] != "any" and container_member(ty) is None and w != ANY:
+            pass
+        if not C5.p_conforms(vfam, ty, plain(v, vfam)) and not normalises_into(vfam, ty, v):
+            return v
+    return None
+
+
+def normalises_into(vfam, ty, v):
+    """would the collection normalisation of a collection attribute turn `v` into a conforming value? (a set / tuple
+    handed to a list attribute, a list handed to a set attribute are rebuilt item by item)"""
+    if not is_container(ty):
+        return False
+    pv = plain(v, vfam)
+    try:
+        if ty[0] == "list" and isinstance(pv, (set, list, str)):
+            return C5.p_conforms(vfam, ty, list(pv))
+        if ty[0] == "set" and isinstance(pv, (set, list, str)):
+            return C5.p_conforms(vfam, ty, set(pv))
+    except TypeError:
+        return False
+    return False
+
+
+def elem_routes_for(rng, vfam, ad, bad, tag, fl):
+    """every element helper of the collection attribute `ad` introducing the element / value `bad`:
+    [(seed op or None, the call)]"""
+    ty, a = ad["ty"], ad["name"]
+    out = []
+    if ty[0] == "list":
+        good = C5.nobool(good_nest(rng, vfam, ty[1]))
+        seed_op = {"k": "ewith", "fl": "i", "a": a, "item": good, "index": "i0", "ins": 1}
+        out.append((None, {"k": "ewith", "fl": fl(), "a": a, "item": bad, "index": "M", "ins": 0, "bad": tag}))
+        out.append((seed_op, {"k": "ewith", "fl": fl(), "a": a, "item": bad, "index": "i0", "ins": 1, "bad": tag}))
+        out.append((seed_op, {"k": "ewith", "fl": fl(), "a": a, "item": bad, "index": "i0", "ins": 0, "bad": tag}))
+        out.append((seed_op, {"k": "eupd", "fl": fl(), "a": a, "voi": "i0", "new": bad, "by": "y", "bad": tag}))
+        out.append((seed_op, {"k": "etra", "fl": fl(), "a": a, "voi": "i0", "f": "cst " + bad, "by": "y", "bad": tag}))
+    elif ty[0] == "dict":
+        gk = C5.nobool(good_nest(rng, vfam, ty[1]))
+        seed_op = {"k": "mwith", "fl": "i", "a": a, "key": gk, "v": good_nest(rng, vfam, ty[2])}
+        out.append((None, {"k": "mwith", "fl": fl(), "a": a, "key": gk, "v": bad, "bad": tag}))
+        out.append((seed_op, {"k": "mwith", "fl": fl(), "a": a, "key": gk, "v": bad, "bad": tag}))
+        out.append((seed_op, {"k": "mupd", "fl": fl(), "a": a, "key": gk, "new": bad, "bad": tag}))
+        out.append((seed_op, {"k": "mtra", "fl": fl(), "a": a, "key": gk, "f": "cst " + bad, "bad": tag}))
+    elif ty[0] == "set":
+        good = C5.nobool(good_nest(rng, vfam, ty[1]))
+        seed_op = {"k": "swith", "fl": "i", "a": a, "item": good}
+        out.append((None, {"k": "swith", "fl": fl(), "a": a, "item": bad, "bad": tag}))
+        out.append((seed_op, {"k": "supd", "fl": fl(), "a": a, "item": good, "new": bad, "bad": tag}))
+        out.append((seed_op, {"k": "stra", "fl": fl(), "a": a, "item": good, "f": "cst " + bad, "bad": tag}))
+    return out
+
+
+def boot_use(rng, vfam, cid, nops=2):
+    """an ordinary use of class `cid`: constructed with conforming values for its collection / re-typed attributes, then
+    a few valid calls (element helpers first: they are what fills per-attribute caches)"""
+    eff = V.effective_attrs(vfam, cid)
+    init = []
+    for ad in eff:
+        if ad.get("ovf") or ad["ty"][0] == "spec":
+            continue
+        need = ad["name"] in bad_default_attrs(vfam, cid) or ad["name"] == V.effective_key(vfam, cid)
+        if need or ((is_container(ad["ty"]) or ad.get("was")) and ad.get("prep") is None and rng.random() < 0.8):
+            v = good_value(rng, vfam, ad) if not is_container(ad["ty"]) else good_nest(rng, vfam, ad["ty"])
+            init.append([ad["name"], v])
+    ops = []
+    for _ in range(nops):
+        op = gen_elem_op(rng, vfam, cid) if rng.random() < 0.7 else None
+        if op is None:
+            cands = [ad for ad in eff if not ad.get("nohelp") and not ad.get("ovf") and ad["ty"][0] != "spec"]
+            if not cands:
+                continue
+            ad = rng.choice(cands)
+            op = {"k": "with", "fl": rng.choice(["-", "i", "a"]), "a": ad["name"], "v": good_value(rng, vfam, ad), "kw": []}
+        ops.append(op)
+    ops = boot_filter_ops(vfam, cid, ops)
+    return {"cls": cid, "init": [x for x in init if buildable(x[1])], "ops": [op for op in ops if all(buildable(t) for t in strings_in(op))]}
+
+
+def boot_orders(rng, bfam, cid):
+    """the orders of first use to put before a case on receiver class `cid`: none; each ancestor alone; the ancestors
+    root-most first and nearest first; a descendant first; a sibling first; everything else in random order"""
+    res = b_resolved(bfam)
+    chain = res[cid]["chain"]
+    ids = [cd["id"] for cd in bfam["classes"]]
+    desc = [c for c in ids if cid in res[c]["chain"]]
+    sibs = [c for c in ids if c != cid and c not in chain and c not in desc and c != 1]
+    orders = [[]]
+    orders += [[c] for c in chain]
+    if len(chain) > 1:
+        orders += [list(reversed(chain)), list(chain)]
+    orders += [[c] for c in desc]
+    orders += [[c] for c in sibs]
+    if sibs and chain:
+        orders.append([rng.choice(sibs), chain[0]])
+    if desc and chain:
+        orders.append([chain[-1], rng.choice(desc)])
+    rest = [c for c in ids if c != cid]
+    rng.shuffle(rest)
+    orders.append(rest)
+    if 1 in ids and cid != 1:
+        orders.append([1])
+    return orders
+
+
+def boot_filter_ops(vfam, cid, ops):
+    """drop the calls this family shape has no counterpart for in the model: helper methods of a key attribute the class
+    does not otherwise manage (there are none), stray keywords on a class that collects extra keywords"""
+    eff = {ad["name"]: ad for ad in V.effective_attrs(vfam, cid)}
+    has_ovf = any(ad.get("ovf") for ad in eff.values())
+    out = []
+    for op in ops:
+        if op is None:
+            continue
+        ad = eff.get(op.get("a")) if "a" in op else None
+        if ad is not None and ad.get("nohelp") and op["k"] not in ("set", "del"):
+            continue
+        if ad is not None and "float" in json.dumps(ad["ty"]) and op["k"] in ("edel", "eupd", "etra") and op.get("by") != "y":
+            continue        # (addressing an element of a float list by value: `0 == 0.0`, the model compares structurally)
+        names = [x[0] for x in op.get("kw") or []] + [x[0] for x in op.get("kt") or []]
+        if op["k"] in ("UPD", "TRA") and has_ovf and any(n not in eff for n in names):
+            continue
+        out.append(op)
+    return out
+
+
+def directed_boot_cases(rng, bfam, fname, per_class=None):
+    """
+    For every class of the hierarchy x every attribute whose type differs somewhere else in the family (narrowed by
+    re-annotation / `attrs_typed` in this class or a sibling, widened in an ancestor, annotated differently from what
+    the decorator declares) x every route -- constructor, with_, assignment, update_, transform_, update, transform and
+    the element helpers with_/update_/transform_<item> (append / insert / replace, dict value and key) -- ONE value that
+    conforms to the OTHER type but not to this class's: the call must raise TypeError / ValueError and store nothing.
+    Conforming values go through the same routes in between.  The groups of calls are dealt out over the orders of
+    first use (`boot_orders`): the same kind of call is made on a class whose ancestors / descendants / siblings
+    were used, and thereby bootstrapped, before it -- and on one that is the first class of its hierarchy to be used.
+    """
+    flat = b_flat(bfam)
+    vfam = view(flat)
+    fl = lambda: rng.choice(["-", "i", "a", "ia"])  # noqa: E731
+    for cid in boot_receivers(bfam):
+        eff = V.effective_attrs(vfam, cid)
+        keyattr = V.effective_key(vfam, cid)
+        base_init = [[a, good_value(rng, vfam, C5.attr_desc(vfam, cid, a))] for a in bad_default_attrs(vfam, cid)]
+        if keyattr is not None and all(x[0] != keyattr for x in base_init):
+            kad = C5.attr_desc(vfam, cid, keyattr)
+            if kad.get("d") is None:
+                base_init.append([keyattr, good_value(rng, vfam, kad)])
+        groups, ctor_cases = [], []
+        for ad in eff:
+            if ad.get("prep") is not None or ad.get("ip") is not None or ad.get("ovf"):
+                continue
+            a, ty = ad["name"], ad["ty"]
+            routes = ("ctor", "set", "UPD") if ad.get("nohelp") else WHOLE_ROUTES
+            if not ad.get("was"):
+                # typed the same everywhere: any non-conforming value, through two of the routes (all of them for a key
+                # attribute without helper methods -- its type is worked out on a path of its own)
+                routes = routes if ad.get("nohelp") else rng.sample(routes, 2)
+            for route in routes:
+                if ad.get("was"):
+                    v = was_ok_bad(rng, vfam, ad)
+                elif is_container(ty):
+                    v = rng.choice([bad_collection(rng, vfam, ty, rng.choice(["key", "value"]), abstract=is_abstract(ad.get("aty", ty))), "i1"])
+                    v = "f3" if v == "i1" and route in ("tra", "TRA") else v
+                else:
+                    v = bad_for(rng, vfam, ty, scalar_only=True)
+                if v is None or not buildable(v):
+                    continue
+                if route == "ctor":
+                    ctor_cases.append([x for x in base_init if x[0] != a] + [[a, v]])
+                    continue
+                g = []
+                # (a transform of an attribute that holds nothing starts from `type()`: a validated type refuses that
+                # with RuntimeError -- see "Observation" in docs/C03.md; give it a value first)
+                if rng.random() < 0.5 or route in ("tra", "TRA"):
+                    gv = good_nest(rng, vfam, ty) if is_container(ty) else good_value(rng, vfam, ad)
+                    if buildable(gv):
+                        g.append(whole_op(rng.choice(["set"] if ad.get("nohelp") or route in ("tra", "TRA") else ["with", "set", "UPD"]),
+                                          a, gv, rng.choice(["i", "a", "-"])))
+                g.append(whole_op(route, a, v, fl(), "retyped-value" if ad.get("was") else "value"))
+                groups.append(g)
+            if is_container(ty) and not ad.get("nohelp"):
+                be = was_ok_bad(rng, vfam, ad, item=True)
+                if be is not None and buildable(be) and not (ty[0] == "set" and be[0] in "LSD"):
+                    for seed_op, call in elem_routes_for(rng, vfam, ad, be, "retyped-element", fl):
+                        groups.append(([seed_op] if seed_op else []) + [call])
+                if ty[0] == "dict":
+                    for w in ad["was"]:
+                        w = cty(w)
+                        if w[0] == "dict" and w[1] != ty[1]:
+                            bk = C5.nobool(C5.gen_value(rng, vfam, w[1], 0))
+                            if not C5.p_conforms(vfam, ty[1], plain(bk, vfam)):
+                                groups.append([{"k": "mwith", "fl": fl(), "a": a, "key": bk, "v": good_nest(rng, vfam, ty[2]), "bad": "retyped-key"}])
+        rng.shuffle(groups)
+        orders = boot_orders(rng, bfam, cid)
+        rng.shuffle(orders)
+        cases = []
+        ops = []
+        for g in groups:
+            if len(ops) + len(g) > 10:
+                cases.append(ops)
+                ops = []
+            ops = ops + g
+        if ops:
+            cases.append(ops)
+        # every order of first use gets at least one batch of calls; with few batches the batches are repeated
+        n = max(len(cases), len(orders)) if cases else 0
+        if per_class is not None:
+            n = min(n, per_class)
+        for i in range(n):
+            order = orders[i % len(orders)]
+            yield {"family": bfam, "fname": fname, "cls": cid, "init": base_init, "ops": boot_filter_ops(vfam, cid, cases[i % len(cases)]),
+                   "pre": [boot_use(rng, vfam, c) for c in order], "stream": "directed", "origin": "directed-boot"}
+        for j, init in enumerate(ctor_cases[: (per_class or len(ctor_cases))]):
+            order = orders[(j + 1) % len(orders)]
+            yield {"family": bfam, "fname": fname, "cls": cid, "init": init, "ops": [], "init_bad": True,
+                   "pre": [boot_use(rng, vfam, c) for c in order], "stream": "directed", "origin": "directed-boot"}
+
+
+def gen_boot_case(rng, bfam, fname, nops, malformed):
+    """a random history on a random class of the hierarchy, after a random order of first use of the other classes"""
+    vfam = view(b_flat(bfam))
+    cid = rng.choice(boot_receivers(bfam))
+    case = gen_case_on(rng, bfam, vfam, fname, cid, nops, malformed)
+    keyattr = V.effective_key(vfam, cid)
+    eff = {ad["name"]: ad for ad in V.effective_attrs(vfam, cid)}
+    case["init"] = [x for x in case["init"] if not eff[x[0]].get("ovf")]
+    if keyattr is not None and all(x[0] != keyattr for x in case["init"]) and eff[keyattr].get("d") is None:
+        case["init"].append([keyattr, good_value(rng, vfam, eff[keyattr])])
+    case["ops"] = boot_filter_ops(vfam, cid, case["ops"])
+    if malformed and rng.random() < 0.5:
+        # one call aiming a value of the attribute's OTHER type at it
+        cands = [ad for ad in eff.values() if ad.get("was") and ad.get("prep") is None and ad.get("ip") is None and not ad.get("ovf")]
+        if cands:
+            ad = rng.choice(cands)
+            v = was_ok_bad(rng, vfam, ad)
+            if v is not None and buildable(v):
+                route = rng.choice(["set"] if ad.get("nohelp") else ["with", "set", "upd", "UPD"] if "valid" in json.dumps(ad["ty"])
+                                   else list(WHOLE_ROUTES[1:]))
+                case["ops"].insert(rng.randint(0, len(case["ops"])), whole_op(route, ad["name"], v, rng.choice(["-", "i", "a"]), "retyped-value"))
+            if is_container(ad["ty"]) and not ad.get("nohelp"):
+                be = was_ok_bad(rng, vfam, ad, item=True)
+                if be is not None and buildable(be) and not (ad["ty"][0] == "set" and be[0] in "LSD"):
+                    seed_op, call = rng.choice(elem_routes_for(rng, vfam, ad, be, "retyped-element", lambda: rng.choice(["-", "i", "a"])))
+                    at = rng.randint(0, len(case["ops"]))
+                    case["ops"][at:at] = ([seed_op] if seed_op else []) + [call]
+    order = rng.choice(boot_orders(rng, bfam, cid))
+    case["pre"] = [boot_use(rng, vfam, c, rng.randint(0, 3)) for c in order]
+    return case
+
+
 def gen_cases(tier, rng):
     nfam = {"quick": 4, "thorough": 30, "search": 10}[tier]
     hand = [("elem", FAMILY_ELEM), ("main", C5.FAMILY_MAIN), ("prep", C5.FAMILY_PREP), ("falsy", C5.FAMILY_FALSY),
             ("abs", FAMILY_ABS), ("desc", FAMILY_DESC), ("baddef", FAMILY_BADDEF), ("nest", FAMILY_NEST)]
     fams = hand + [(f"rnd{i}", random_family3(rng) if i % 2 == 0 else no_ovf(C5.random_family(rng))) for i in range(nfam)]
     nh = len(hand)
+    # round 5: families given as class STATEMENTS (decorator options, re-annotation in hierarchies, lazy bootstrap); every
+    # decorator-option mode is the root's resp. the first subclass's mode in at least one family of every run
+    nboot = {"quick": 8, "thorough": 48, "search": 8}[tier]
+    boot = [("boot", FAMILY_BOOT), ("bootopt", FAMILY_BOOTOPT)] + [
+        (f"brnd{i}", boot_family(rng, BOOT_MODES[i % len(BOOT_MODES)], BOOT_MODES[(3 * i + 1 + i // len(BOOT_MODES)) % len(BOOT_MODES)]))
+        for i in range(nboot)]
+    if tier != "search":
+        for fname, fam in boot:
+            hand_written = fname in ("boot", "bootopt")
+            yield from directed_boot_cases(rng, fam, fname, per_class=None if hand_written or tier == "thorough" else 3)
+            if hand_written or tier == "thorough":
+                yield from directed_bad_cases(rng, fam, fname)
+            for j in range(16 if hand_written else 6 if tier == "quick" else 30):
+                yield gen_boot_case(rng, fam, fname, rng.randint(3, 10), malformed=(j % 2 == 1))
     if tier != "search":
         yield from valid_order_cases(rng)
         for fname, fam in fams[:nh] + (fams[nh:nh + 2] if tier == "quick" else fams[nh:]):
@@ -1264,7 +2202,16 @@ def gen_cases(tier, rng):
         for fname, fam in fams:
             yield from directed_nested_cases(rng, fam, fname, reps=1 if tier == "quick" or fname != "nest" else 6)
     if tier == "search":
+        k = 0
         while True:
+            k += 1
+            if k % 3 == 0:
+                # class statements: now and then a new hierarchy from the grammar
+                if k % 90 == 0:
+                    boot[2 + (k // 90) % nboot] = (f"brnd{k}", boot_family(rng))
+                fname, fam = rng.choice(boot)
+                yield gen_boot_case(rng, fam, fname, rng.randint(1, 8), rng.random() < 0.6)
+                continue
             fname, fam = rng.choice(fams)
             yield gen_case(rng, fam, fname, rng.randint(1, 8), rng.random() < 0.6)
         return
@@ -1318,12 +2265,39 @@ def is_extra_case(case):
     return "family" not in case
 
 
+def segments(case):
+    """the receivers of a case in order: the classes used BEFORE the class under test is first used (`pre`), then the
+    case's own receiver"""
+    return list(case.get("pre") or []) + [{"cls": case["cls"], "init": case["init"], "ops": case["ops"],
+                                            "init_bad": case.get("init_bad")}]
+
+
+def header_len(case):
+    return 1 + len(case["family"]["classes"])
+
+
+def seg_layout(case):
+    """[(line number, segment index, op index or None for the constructor line)]"""
+    out = []
+    n = header_len(case)
+    for si, seg in enumerate(segments(case)):
+        out.append((n, si, None))
+        n += 1
+        for oi in range(len(seg["ops"])):
+            out.append((n, si, oi))
+            n += 1
+    return out
+
+
 def model_lines(case):
     if is_extra_case(case):
         return ["reset"]
     fam = case["family"]
-    return (["reset"] + V.class_lines(fam) + [f"new {case['cls']} {C5.kw_tokens(case['init'])}"]
-            + [op_line(op) for op in case["ops"]])
+    lines = ["reset"] + (b_decl_lines(fam) if is_boot(fam) else V.class_lines(fam))
+    for seg in segments(case):
+        lines.append(f"new {seg['cls']} {C5.kw_tokens(seg['init'])}")
+        lines += [op_line(op) for op in seg["ops"]]
+    return lines
 
 
 def call_real(classes, fam, recv, op):
@@ -1462,31 +2436,86 @@ def wt_bits(fam, classes, recv, ret):
     return a + b
 
 
+def real_family(case):
+    """(family description the reference checker / call helpers read, real classes) of a case"""
+    fam = case["family"]
+    if is_boot(fam):
+        return b_flat(fam), b_build(fam)      # fresh classes for every run: what is bootstrapped when is part of the case
+    return fam, V.build_family(fam)
+
+
+_OBS = {}
+
+
+def observe(case):
+    """
+    ONE execution of the case on the real classes, looked at twice: (protocol lines for the comparison with the model,
+    violations of the property text).  The second reading is the oracle's: what a call tagged `bad` may do, nothing
+    stored by a call that raised, and the reference checker over every live instance after every call.
+    """
+    fam, classes = real_family(case)
+    out = ["ok"] * header_len(case)
+    viol = []
+    live = []
+    segs = segments(case)
+    for si, seg in enumerate(segs):
+        where = "" if si == len(segs) - 1 else f"[used before: C{seg['cls']}] "
+        try:
+            recv = C5.construct_real(classes, seg)
+            out.append("ok ;; " + show(recv) + " ;; wt=" + wt_bits(fam, classes, recv, recv))
+        except Exception as e:
+            recv = None
+            out.append(f"err {V.err_name(e)} ;; N ;; wt=11")
+            if seg.get("init_bad") and V.err_name(e) not in ("TypeError", "ValueError"):
+                viol.append(f"{where}constructor with a non-conforming keyword raised {V.err_name(e)}")
+        if recv is not None:
+            if seg.get("init_bad"):
+                viol.append(f"{where}constructor accepted a non-conforming keyword / default: {C5.kw_tokens(seg['init'])} -> {show(recv)}")
+            live.append(recv)
+            for obj, a, x in ill_typed(fam, classes, live):
+                viol.append(f"{where}after construction: C{type(obj).__verif_id__}.a{a} holds {show(x)}")
+        for n, op in enumerate(seg["ops"]):
+            if recv is None:
+                out.append("err AttributeError ;; N ;; wt=11")
+                continue
+            watch = len(viol) <= 6
+            pre = show(recv)
+            pre_all = [show(o) for o in live] if watch and op.get("bad") else None
+            ret = err = None
+            try:
+                ret = call_real(classes, fam, recv, op)
+                line = ("self" if ret is recv else "new " + show(ret)) + " ;; " + show(recv)
+                line += " ;; wt=" + wt_bits(fam, classes, recv, ret)
+            except Exception as e:
+                err = V.err_name(e)
+                line = f"err {err} ;; " + show(recv) + " ;; wt=" + wt_bits(fam, classes, recv, recv)
+            out.append(line)
+            if watch:
+                label = f"{where}op#{n} {op_line(op)} from {pre}"
+                if op.get("bad"):
+                    if err is None:
+                        viol.append(f"{label}: a non-conforming {op['bad']} was accepted (result {show(ret)})")
+                    elif err not in ("TypeError", "ValueError"):
+                        viol.append(f"{label}: a non-conforming {op['bad']} raised {err}, not TypeError/ValueError")
+                    if err is not None and [show(o) for o in live] != pre_all:
+                        viol.append(f"{label}: raised {err} but something was stored: {show(recv)}")
+                if ret is not None and V.is_spec_instance(ret) and not any(ret is o for o in live):
+                    live.append(ret)
+                roots = live + ([ret] if ret is not None else [])
+                for obj, a, x in ill_typed(fam, classes, roots):
+                    viol.append(f"{label}: afterwards C{type(obj).__verif_id__}.a{a} holds {show(x)}")
+            if err is None and "a" in op.get("fl", "") and ret is not recv and V.is_spec_instance(ret):
+                recv = ret
+    return out, viol
+
+
 def real_lines(case):
     if is_extra_case(case):
         return ["ok"]
-    fam = case["family"]
-    classes = V.build_family(fam)
-    out = ["ok"] * (1 + len(fam["classes"]))
-    try:
-        recv = C5.construct_real(classes, case)
-        out.append("ok ;; " + show(recv) + " ;; wt=" + wt_bits(fam, classes, recv, recv))
-    except Exception as e:
-        recv = None
-        out.append(f"err {V.err_name(e)} ;; N ;; wt=11")
-    for op in case["ops"]:
-        if recv is None:
-            out.append("err AttributeError ;; N ;; wt=11")
-            continue
-        try:
-            ret = call_real(classes, fam, recv, op)
-            line = ("self" if ret is recv else "new " + show(ret)) + " ;; " + show(recv)
-            line += " ;; wt=" + wt_bits(fam, classes, recv, ret)
-            if "a" in op.get("fl", "") and ret is not recv and V.is_spec_instance(ret):
-                recv = ret
-        except Exception as e:
-            line = f"err {V.err_name(e)} ;; " + show(recv) + " ;; wt=" + wt_bits(fam, classes, recv, recv)
-        out.append(line)
+    out, viol = observe(case)
+    if len(_OBS) > 64:
+        _OBS.clear()
+    _OBS[id(case)] = (case, viol)       # (the oracle of the same case object reads the same execution)
     return out
 
 
@@ -1503,48 +2532,10 @@ def oracle(case):
         import random as _random
 
         return nested_probe(nested_classes(), _random.Random(0), probe)[1]
-    fam = case["family"]
-    classes = V.build_family(fam)
-    viol = []
-    live = []
-    try:
-        recv = C5.construct_real(classes, case)
-    except Exception as e:
-        if case.get("init_bad") and V.err_name(e) not in ("TypeError", "ValueError"):
-            viol.append(f"constructor with a non-conforming keyword raised {V.err_name(e)}")
-        return viol
-    if case.get("init_bad"):
-        viol.append(f"constructor accepted a non-conforming keyword / default: {C5.kw_tokens(case['init'])} -> {show(recv)}")
-    live.append(recv)
-    for obj, a, x in ill_typed(fam, classes, live):
-        viol.append(f"after construction: C{type(obj).__verif_id__}.a{a} holds {show(x)}")
-    for n, op in enumerate(case["ops"]):
-        pre = show(recv)
-        pre_all = [show(o) for o in live]
-        try:
-            ret = call_real(classes, fam, recv, op)
-            err = None
-        except Exception as e:
-            ret, err = None, V.err_name(e)
-        label = f"op#{n} {op_line(op)} from {pre}"
-        if op.get("bad"):
-            if err is None:
-                viol.append(f"{label}: a non-conforming {op['bad']} was accepted (result {show(ret)})")
-            elif err not in ("TypeError", "ValueError"):
-                viol.append(f"{label}: a non-conforming {op['bad']} raised {err}, not TypeError/ValueError")
-        if err is not None and op.get("bad"):
-            if [show(o) for o in live] != pre_all:
-                viol.append(f"{label}: raised {err} but something was stored: {show(recv)}")
-        if ret is not None and V.is_spec_instance(ret) and not any(ret is o for o in live):
-            live.append(ret)
-        roots = live + ([ret] if ret is not None else [])
-        for obj, a, x in ill_typed(fam, classes, roots):
-            viol.append(f"{label}: afterwards C{type(obj).__verif_id__}.a{a} holds {show(x)}")
-        if err is None and "a" in op.get("fl", "") and ret is not recv and V.is_spec_instance(ret):
-            recv = ret
-        if len(viol) > 6:
-            break
-    return viol
+    hit = _OBS.pop(id(case), None)
+    if hit is not None and hit[0] is case:
+        return hit[1]
+    return observe(case)[1]
 
 
 # ---------------------------------------------------------------------------
@@ -1554,21 +2545,30 @@ def oracle(case):
 
 def nontrivial(case, real):
     keys = []
-    base = 1 + len(case["family"]["classes"])
-    for i, op in enumerate(case["ops"]):
-        j = base + 1 + i
+    segs = segments(case)
+    for j, si, oi in seg_layout(case):
+        if oi is None:
+            continue
         if j >= len(real):
             break
+        op = segs[si]["ops"][oi]
         pre = real[j - 1].split(" ;; ")[1] if " ;; " in real[j - 1] else ""
         parts = real[j].split(" ;; ")
         if parts[0] != "self" or (len(parts) > 1 and parts[1] != pre):
-            keys.append((case["fname"], pre, op_line(op)))
+            keys.append((case["fname"], pre, op_line(op)) + ((f"after:{boot_order_tag(case)}",) if case.get("pre") else ()))
     return keys
+
+
+def boot_order_tag(case):
+    return ">".join(f"C{seg['cls']}" for seg in case.get("pre") or []) or "-"
 
 
 def tags(case, real):
     t = [f"stream:{case.get('stream')}", f"family:{case['fname'][:3]}", f"class:C{case['cls']}" if case["fname"] in ("elem", "falsy", "abs", "desc", "baddef", "nest") else "class:*"]
-    base = 1 + len(case["family"]["classes"])
+    base = header_len(case) + sum(1 + len(seg["ops"]) for seg in case.get("pre") or [])
+    if is_boot(case["family"]):
+        t.append("boot-first-use:" + ("none-before" if not case.get("pre") else f"{len(case['pre'])}-before"))
+        t += [f"boot-options:{o}" for o in boot_option_tags(case["family"], case["cls"])]
     t.append("ctor:" + real[base].split(" ")[0] + (":bad-keyword" if case.get("init_bad") else ""))
     if real[base].startswith("err"):
         return t
@@ -1589,11 +2589,18 @@ def shrink(case, at=None):
     if is_extra_case(case):
         return
     ops = case["ops"]
-    base = 1 + len(case["family"]["classes"]) + 1
+    pre = case.get("pre") or []
+    base = header_len(case) + sum(1 + len(seg["ops"]) for seg in pre) + 1
     if at is not None and at >= base:
         yield {**case, "ops": ops[: at - base + 1]}
     for i in range(len(ops)):
         yield {**case, "ops": ops[:i] + ops[i + 1:]}
+    # the classes used before: fewer of them, fewer calls on them
+    for i in range(len(pre)):
+        yield {**case, "pre": pre[:i] + pre[i + 1:]}
+    for i, seg in enumerate(pre):
+        if seg["ops"]:
+            yield {**case, "pre": pre[:i] + [dict(seg, ops=[])] + pre[i + 1:]}
 
 
 # ---------------------------------------------------------------------------
@@ -2544,7 +3551,7 @@ def extra(tier, rng):
 
 
 MANIFEST_ENTRY = {
-    "level_text": "Lean 4 proof that in the Impl model of every mutation route of the spec-class API (generated constructor incl. keyword and dict-to-spec casting, obj.a = v, del, with_/update_/transform_/reset_<attr> with values, keywords and transforms, update/transform/reset, with_/update_/transform_/without_<item> on list / dict / set attributes by index / key / value, preparers and item preparers returning arbitrary values) the invariant WellTyped (every managed attribute that is set conforms to its annotation: element, key and value types -- also for container classes check_type does not look inside (MutableSequence/MutableSet/MutableMapping[...]), where only the per-item pass of prepare() guards the items (items_checked_by_prepare) --, Union/Optional alternatives, Literal choices, nested spec classes, recursively through nested instances) is preserved by every step, for any class table (incl. attributes without a default of their own that are backed by a property, and defaults that do not conform), any pure callbacks, any fuel (wellTyped_step), hence holds in every reachable state of every history (wellTyped_reachable), and that a call whose pipeline ends in a non-conforming value, element or key raises TypeError / ValueError and leaves the receiver as it was (bad_value_rejected &c.), as do del / reset_<a> / reset() when the class default does not conform (bad_default_rejected, reset_error_stores_nothing). The model is tied to /repo on every run: valid and malformed call streams (one non-conforming value aimed at each position of each route) run on the real classes and on the model; outcome class, returned state, receiver state and the invariant (Lean `wt` vs an independent typing-based reference checker over every live instance) are compared after every call. Element / key / value types at any depth (containers inside Optional / Union, containers as items / values of collection attributes): the verdict of check_type on a container is the conjunction of the verdicts on its elements one by one (conforms_list_iff &c.), independent of their order (conforms_list_perm) and of what precedes an element (later_element_checked); ONE non-conforming leaf at any position of any nesting makes the value non-conforming (badAt_not_conforms), every route rejects it with nothing stored (nested_bad_value_rejected, nested_bad_item_rejected &c.) and no reachable state holds one (reachable_no_bad_position); tied to /repo by the `nest` family (every route x every nesting x position of the offending leaf among conforming neighbours of the same class).",
+    "level_text": "Lean 4 proof that in the Impl model of every mutation route of the spec-class API (generated constructor incl. keyword and dict-to-spec casting, obj.a = v, del, with_/update_/transform_/reset_<attr> with values, keywords and transforms, update/transform/reset, with_/update_/transform_/without_<item> on list / dict / set attributes by index / key / value, preparers and item preparers returning arbitrary values) the invariant WellTyped (every managed attribute that is set conforms to its annotation: element, key and value types -- also for container classes check_type does not look inside (MutableSequence/MutableSet/MutableMapping[...]), where only the per-item pass of prepare() guards the items (items_checked_by_prepare) --, Union/Optional alternatives, Literal choices, nested spec classes, recursively through nested instances) is preserved by every step, for any class table (incl. attributes without a default of their own that are backed by a property, and defaults that do not conform), any pure callbacks, any fuel (wellTyped_step), hence holds in every reachable state of every history (wellTyped_reachable), and that a call whose pipeline ends in a non-conforming value, element or key raises TypeError / ValueError and leaves the receiver as it was (bad_value_rejected &c.), as do del / reset_<a> / reset() when the class default does not conform (bad_default_rejected, reset_error_stores_nothing). The model is tied to /repo on every run: valid and malformed call streams (one non-conforming value aimed at each position of each route) run on the real classes and on the model; outcome class, returned state, receiver state and the invariant (Lean `wt` vs an independent typing-based reference checker over every live instance) are compared after every call. Element / key / value types at any depth (containers inside Optional / Union, containers as items / values of collection attributes): the verdict of check_type on a container is the conjunction of the verdicts on its elements one by one (conforms_list_iff &c.), independent of their order (conforms_list_perm) and of what precedes an element (later_element_checked); ONE non-conforming leaf at any position of any nesting makes the value non-conforming (badAt_not_conforms), every route rejects it with nothing stored (nested_bad_value_rejected, nested_bad_item_rejected &c.) and no reachable state holds one (reachable_no_bad_position); tied to /repo by the `nest` family (every route x every nesting x position of the offending leaf among conforming neighbours of the same class). Where the class table comes from is modelled too (SpecVerif.C03Boot.bootstrap = spec_class.bootstrap: decorator options attrs / attrs_typed / attrs_skip / key / init_overflow_attr, annotations own and inherited, re-annotation and re-defaulting in subclasses, plain subclasses): every managed attribute is typed by the decorator's type unless that is the Any placeholder, else by the annotation visible on the class (managed_attr_type, attrs_nominated_keeps_annotation, attrs_typed_decides, annotation_decides -- a subclass narrowing an inherited attribute manages the narrow type --, inherited_attr_type, key_attr_type), and lazy bootstrap in ANY order of first use gives every class the table eager bootstrap in definition order gives it (first_use_order_irrelevant, first_use_orders_agree); tied to /repo by families given as class statements (`decl` lines), real classes built fresh per case and used in every order of first use.",
     "level_note": "Trusted: Lean kernel; axioms propext/Classical.choice/Quot.sound only; the hand-written value-level model (shared with C05), the class-family builder, the correspondence harness. Instances supplied by the caller or by callbacks are assumed well typed (they can only be created through the API). KeyedList/KeyedSet attributes and tuple generics (Tuple[V, ...], Tuple[V, W], nested) are not in the Lean model: extra() sends them through every route on the real code and checks with the reference checker.",
     "technique": "Lean 4 inductive-invariant proof over all routes and histories of a hand-written model; differential correspondence against the real API; typing-based reference checker as independent oracle",
 }
